@@ -61,4 +61,36 @@ theorem C10_observation_sent_is_source (t : TrialIn) :
   unfold obsAppendGuard convTrial
   cases t.obs <;> simp
 
+/-- the regenerated condition under which one iteration of the loop of `ConvertTrials` sends the Trial -/
+def sentGen (t : TrialIn) : Bool :=
+  trialSentGuard false false false false false false false (condHas t.conditions "MetricsUnavailable") (obsAvail t)
+    (condHas t.conditions "EarlyStopped") false false false false
+
+/-- **C10_convert_trials_loop_is_source**: for every list of Trials (any number, any conditions, with or without observation) what
+    the model sends is the in-order concatenation of what the regenerated guard lets each iteration send -/
+theorem C10_convert_trials_loop_is_source (ts : List TrialIn) :
+    convertTrials ts = ts.flatMap (fun t => if sentGen t then [convTrial t] else []) := by
+  unfold convertTrials
+  induction ts with
+  | nil => simp
+  | cons t rest ih =>
+    rw [List.flatMap_cons, ← ih, List.filter_cons]
+    have h := (C10_trial_sent_is_source t).1
+    unfold sentGen
+    rw [← h]
+    cases (!condHas t.conditions "MetricsUnavailable" && !(condHas t.conditions "EarlyStopped" && !obsAvail t)) <;> simp
+
+/-- a Trial is sent exactly when the regenerated guard holds for it; nothing else is sent and the order is kept -/
+theorem C10_sent_iff_guard (ts : List TrialIn) (p : PTrial) :
+    p ∈ convertTrials ts ↔ ∃ t ∈ ts, sentGen t = true ∧ convTrial t = p := by
+  rw [C10_convert_trials_loop_is_source]
+  simp only [List.mem_flatMap]
+  constructor
+  · rintro ⟨t, ht, hp⟩
+    by_cases hs : sentGen t = true
+    · simp [hs] at hp; exact ⟨t, ht, hs, hp.symm⟩
+    · simp [hs] at hp
+  · rintro ⟨t, ht, hs, rfl⟩
+    exact ⟨t, ht, by simp [hs]⟩
+
 end Katib.Gen
